@@ -431,6 +431,10 @@ class Interp:
         self.reads = []
         self.depth = 0
         self.stack = []
+        # module-level containers (caches, registries written by the code under analysis) start every path as the source
+        # defines them: a path must not see what an earlier replayed path stored
+        for key in [k for k, v in self._const_cache.items() if isinstance(v, (dict, list, set))]:
+            del self._const_cache[key]
 
     def choose(self, n, label):
         if self.dpos < len(self.decisions):
